@@ -47,3 +47,17 @@ fn k_collect_hashbrown_set_keys() {
         core::mem::forget(m); core::mem::forget(s); core::mem::forget(cx);
     }
 }
+#[kani::proof]
+#[kani::unwind(6)]
+fn k_collect_hashbrown_table() {
+    unsafe {
+        let cx = Context::new(); let mc = cx.mutation_context();
+        let g = [Gc::new(mc, 0u8), Gc::new(mc, 1u8)];
+        let mut t: hashbrown::HashTable<(Gc<'_, u8>, crate::GcWeak<'_, u8>)> = hashbrown::HashTable::new();
+        t.insert_unique(5, (g[0], Gc::downgrade(g[1])), |_| 5);
+        let mut r = Rec::new(); t.trace(&mut r);
+        assert!(r.ns == 1 && r.nw == 1 && r.s[0] == a(g[0]) && r.w[0] == a(g[1]), "[trace] hashbrown::HashTable elements, strong and weak");
+        assert!(<hashbrown::HashTable<Gc<'_, u8>> as Collect>::NEEDS_TRACE && !<hashbrown::HashTable<Static<u8>> as Collect>::NEEDS_TRACE, "[trace] HashTable NEEDS_TRACE");
+        core::mem::forget(t); core::mem::forget(cx);
+    }
+}
